@@ -204,6 +204,11 @@ def main(tier, seed, replay=None):
     tracecheck.check_traces(ck, 'C18', names=['add', 'add_big', 'pack_small', 'topack_multi', 'repack'])
     hist.run_histories(ck, 'C18', [('mixed', 60 if tier == 'quick' else 1500, 18, False)])
     try:
+        import lookupcorr
+        lookupcorr.run(ck, tier, ncont=4 if tier == 'quick' else 30)   # ties LookupFd.lookup_events (C18_bulk_read_*) to the generator
+    except Exception as e:
+        ck.obligation('lookup-generator correspondence executed', False, f'{type(e).__name__}: {e}', kind='correspondence')
+    try:
         fd_and_open_files(ck)
         chunk_sizes(ck)
     except Exception as e:
